@@ -230,6 +230,9 @@ def run(ctx, fb, cfg):
     import C01
 
     C01.check_state_unify(ctx, lib, R + "K3.state-unify")
+    # "... with exactly that unification's new bindings": every binding unify_rec adds to the substitution is
+    # recorded in the extension as the same (variable, value) pair (table shared with C01)
+    C01.check_unify_rec(ctx, lib, R + "K3K5.unify-rec")
     if any(p.startswith("crate::relation::clpfd") for p in lib.fns):
         import fdrules
 
